@@ -38,7 +38,7 @@ pub fn scripts_of(f: &FileStruct) -> Vec<Vec<truth::llir::RawInstr>> {
         FileStruct::Msg(m) => m.scripts.values().map(|s| s.instrs.clone()).collect(),
         FileStruct::Mission(_) => vec![],
         FileStruct::Ecl(truth::EclFile::Olde(e)) => e.timelines.iter().map(|s| s.instrs.clone()).chain(e.subs.values().map(|s| s.instrs.clone())).collect(),
-        FileStruct::Ecl(_) => vec![],
+        FileStruct::Ecl(truth::EclFile::Stack(e)) => e.subs.values().map(|s| s.instrs.clone()).collect(),
     }
 }
 
@@ -119,6 +119,8 @@ impl Property for C03 {
         let fmt = pick_fmt(tape);
         let game = *tape.pick(games_for(fmt));
         if tape.chance(1, 4) {
+            // (general sources also cover TH10+ ECL: compiled file vs re-read file)
+            let game = if fmt == Fmt::Ecl && tape.chance(1, 2) { *tape.pick(MODERN_ECL_GAMES) } else { game };
             let f = gen_file(tape, fmt, game, tier.pick(8, 16));
             return json!({"kind": "general", "fmt": fmt.name(), "game": game, "text": f.text});
         }
